@@ -269,6 +269,14 @@ inductive Res (α : Type) where
   | hang : Res α
   | lowdim : Res α
 
+/-- `triangles[i].valid = false; removed_facets = [i]; for j in 0..3 { compute_silhouette(adj[j], indirect_adj_id[j], …) }` -/
+def silhouetteStep (pts : Array (V3 K)) (point i : Nat) (ts : Array (Facet K)) : Sil K :=
+  let t := tAt ts i
+  let s0 : Sil K := ⟨#[], #[i], invalidate ts i⟩
+  let s1 := computeSilhouette pts point (ts.size + 1) (t.adj.get 0) (t.ind.get 0) s0
+  let s2 := computeSilhouette pts point (ts.size + 1) (t.adj.get 1) (t.ind.get 1) s1
+  computeSilhouette pts point (ts.size + 1) (t.adj.get 2) (t.ind.get 2) s2
+
 /-- one pass of `while i != triangles.len()`: `Sum.inl` = continue with the new state, `Sum.inr` = loop left (break / error) -/
 def mainStep (negMax : K) (pts : Array (V3 K)) (i : Nat) (ts : Array (Facet K)) (und : Array Nat) :
     Res (Bool × Array (Facet K) × Array Nat) :=
@@ -277,8 +285,7 @@ def mainStep (negMax : K) (pts : Array (V3 K)) (i : Nat) (ts : Array (Facet K)) 
   match indexedSupportPointId negMax t.normal pts t.vis.toList with
   | none => .ok (false, ts, und)
   | some point =>
-    let s0 : Sil K := ⟨#[], #[i], invalidate ts i⟩
-    let s1 := (List.range 3).foldl (fun s j => computeSilhouette pts point (ts.size + 1) (t.adj.get j) (t.ind.get j) s) s0
+    let s1 := silhouetteStep pts point i ts
     match fixSilhouetteTopology negMax pts s1 with
     | none => .err "MissingSupportPoint"
     | some s2 =>
